@@ -9,10 +9,12 @@ package sod
 // replayed (values come from a replay vector in call order).
 
 import (
+	"bytes"
 	"encoding/json"
 	"fmt"
 	"math"
 	"os"
+	"sort"
 	"time"
 )
 
@@ -289,3 +291,111 @@ func vParN(fs ...func()) {
 func vRaceCheck(label string) {}
 
 func vSchedSwitches() int { return 0 }
+
+// ---- structural JSON mutation (same enumeration as engine/interp/std_mutate.go) ----
+
+const vMutKinds = 8
+
+func vMutReplacement(old interface{}, r int) interface{} {
+	switch r {
+	case 0:
+		return nil
+	case 1:
+		return true
+	case 2:
+		return json.Number("7")
+	case 3:
+		return json.Number("-1.5")
+	case 4:
+		return "x"
+	case 5:
+		return []interface{}{}
+	case 6:
+		return map[string]interface{}{}
+	}
+	switch o := old.(type) {
+	case []interface{}:
+		if len(o) > 0 {
+			return append([]interface{}{}, o[:len(o)-1]...)
+		}
+		return o
+	case map[string]interface{}:
+		c := map[string]interface{}{}
+		keys := vSortedKeys(o)
+		for i, k := range keys {
+			if i == 0 {
+				continue
+			}
+			c[k] = o[k]
+		}
+		return c
+	}
+	return json.Number("1e30")
+}
+
+func vSortedKeys(m map[string]interface{}) []string {
+	ks := make([]string, 0, len(m))
+	for k := range m {
+		ks = append(ks, k)
+	}
+	sort.Strings(ks)
+	return ks
+}
+
+func vMutateJSON(path string, k int) bool {
+	b, err := os.ReadFile(path)
+	if err != nil {
+		return false
+	}
+	dec := json.NewDecoder(bytes.NewReader(b))
+	dec.UseNumber()
+	var root interface{}
+	if dec.Decode(&root) != nil {
+		return false
+	}
+	target, r := k/vMutKinds, k%vMutKinds
+	cnt := 0
+	found := false
+	var walk func(n interface{}) interface{}
+	walk = func(n interface{}) interface{} {
+		idx := cnt
+		cnt++
+		if idx == target {
+			found = true
+			return vMutReplacement(n, r)
+		}
+		switch o := n.(type) {
+		case []interface{}:
+			c := make([]interface{}, len(o))
+			for i, e := range o {
+				c[i] = walk(e)
+			}
+			return c
+		case map[string]interface{}:
+			c := map[string]interface{}{}
+			for _, key := range vSortedKeys(o) {
+				c[key] = walk(o[key])
+			}
+			return c
+		}
+		return n
+	}
+	out := walk(root)
+	if !found {
+		return false
+	}
+	nb, err := json.Marshal(out)
+	if err != nil {
+		return false
+	}
+	return os.WriteFile(path, nb, 0600) == nil
+}
+
+func vTruncateFile(path string, mode int) bool {
+	if mode == 0 {
+		return os.WriteFile(path, nil, 0600) == nil
+	}
+	return os.WriteFile(path, []byte("{\"fields\":{\"A\""), 0600) == nil
+}
+
+func vMkdir(path string) { os.MkdirAll(path, 0700) }
